@@ -19,7 +19,9 @@ RULE = ('each evaluation = one generated DoWhile package (import stage 0-2; body
         'binding; outside consumers by :ref, :output, :loopref, :loopoutput) driven through k in {1,2,3,9,10,11,12,20,25} '
         'calls of instantiate_dowhile_next_iteration(store_flowir_to_disk=True), with 0-3 crash+reload points. After every '
         'step the graph, placeholders, loop state and DataReference.resolve() are compared with an independent reference '
-        'unroller. distinct_nontrivial = number of judged (history, step) pairs of distinct histories; non-trivial = k >= 1')
+        'unroller. 30 % of the packages contain a second, independent DoWhile document (same component names in other stages - '
+        'also the same file imported twice - or suffixed names, possibly in the same stages), iterated in a seeded interleaving '
+        'with the first. distinct_nontrivial = number of judged (history, step) pairs of distinct histories; non-trivial = k >= 1')
 ASSUMPTIONS = ['the reference unroller encodes the statement (instances 0..k, loop-carried inputs from i-1, others from the '
                'original bindings, latest = numerically highest, aggregate references in increasing order, current condition = '
                'iteration k); naming stage<s>.<i>#<name>[<replica>] is the documented one',
@@ -28,11 +30,43 @@ ASSUMPTIONS = ['the reference unroller encodes the statement (instances 0..k, lo
 
 def gen_case(seed, tier, index=0):
     rr = random.Random(seed)
-    return {'prog': e2.gen_loop_program(rr)}
+    prog = e2.gen_loop_program(rr)
+    if rr.random() < 0.3:
+        e2.add_second_loop(rr, prog)
+    return {'prog': prog}
 
 
 def shrink_candidates(case):
     p = case['prog']
+    if p.get('second'):
+        # without the second document; with fewer iterations of either; with a suffix (distinct names)
+        c = copy.deepcopy(case)
+        del c['prog']['second']
+        c['prog'].pop('order', None)
+        c['prog']['reloads'] = []
+        yield c
+        for li in (0, 1):
+            n = p['order'].count(li)
+            for keep in (1, 2):
+                if keep < n:
+                    c = copy.deepcopy(case)
+                    seen = 0
+                    order = []
+                    for x in p['order']:
+                        if x == li:
+                            seen += 1
+                            if seen > keep:
+                                continue
+                        order.append(x)
+                    c['prog']['order'] = order
+                    (c['prog'] if li == 0 else c['prog']['second'])['k'] = keep
+                    c['prog']['reloads'] = []
+                    yield c
+        if p['reloads']:
+            c = copy.deepcopy(case)
+            c['prog']['reloads'] = []
+            yield c
+        return
     for k in sorted(set([1, 2, 9, 10, 11, p['k'] - 1])):
         if 0 < k < p['k']:
             c = copy.deepcopy(case)
@@ -78,6 +112,6 @@ def run_case(case, schedule, opts):
         R.cleanup_root(root)
     result['digest'] = result['abstract'] = key
     result['distinct_units'] = result['counters'].get('probe.loop_judgements', 0)
-    main, dw = e2.render_loop(copy.deepcopy(case['prog']))
-    result['sample'] = {'program': case['prog'], 'flowir': main, 'dowhile': dw, 'steps': steps[:40]}
+    main, files = e2.render_package(copy.deepcopy(case['prog']))
+    result['sample'] = {'program': case['prog'], 'flowir': main, 'dowhile': files, 'steps': steps[:40]}
     return result
